@@ -27,10 +27,11 @@ ASSUMPTIONS = [
 ]
 FLOORS = {
     "quick": {"weather_reads": 10000, "perturbation_pairs": 120, "padding_pairs": 50, "extension_pairs": 50,
-              "extension_pairs_thermal": 12, "rows_compared": 40000, "cd_steps_checked": 8000},
+              "extension_pairs_thermal": 12, "rows_compared": 40000, "cd_steps_checked": 8000,
+              "extensions_past_a_co2_record": 5},
     "thorough": {"weather_reads": 100000, "perturbation_pairs": 1200, "padding_pairs": 500,
                  "extension_pairs": 500, "extension_pairs_thermal": 120, "rows_compared": 400000,
-                 "cd_steps_checked": 80000},
+                 "cd_steps_checked": 80000, "extensions_past_a_co2_record": 50},
 }
 CASE_TIMEOUT = {"quick": 400, "thorough": 1200}
 
